@@ -30,6 +30,9 @@ def cell(t, transport, prefix, how):
             ops.append("park")
     elif prefix == "handshake":
         ops += ["conn 0", "staller 0 off=30 mode=stop"]
+    elif prefix == "crowd":
+        # one established peer and forty clients that connected and then said nothing
+        ops += ["conn 0"] + ["staller 0 off=0 mode=stop"] * 40
     elif prefix == "backlog":
         # subscribers that have stopped reading, with far more published than the kernel buffers and the write mark hold
         ops += ["conn 0", "conn 0", "xchg 0", "flood 48 1000000"]
@@ -57,6 +60,10 @@ def cases(tier, rng):
                         continue
                     out.append("g%d.%s.%s.%s.%s rt %s / %s" % (k, t, transport, prefix, how, t, cell(t, transport, prefix, how)))
                     k += 1
+        if t in ("REP", "PULL", "PUB"):
+            for how in ("close", "drop"):
+                out.append("g%d.%s.tcp4.crowd.%s rt %s / %s" % (k, t, how, t, cell(t, "tcp4", "crowd", how)))
+                k += 1
         if t in ("PUB", "XPUB"):
             for how in ("close", "drop"):
                 out.append("g%d.%s.tcp4.backlog.%s rt %s / %s" % (k, t, how, t, cell(t, "tcp4", "backlog", how)))
